@@ -20,6 +20,8 @@ pub enum Job {
         index: u64,
         tier: String,
         want_case: bool,
+        #[serde(default)]
+        base: u64,
     },
     Case {
         case: Box<Case>,
@@ -45,6 +47,23 @@ pub struct RunResult {
     pub probes: BTreeMap<String, u64>,
     pub event_head: Vec<String>,
     pub wall_ms: u64,
+    /// additional simulated runs executed inside this job
+    #[serde(default)]
+    pub sub_runs: u64,
+    /// violations found by follow-up runs, each with its own replayable case
+    #[serde(default)]
+    pub sub_failures: Vec<SubFailure>,
+    #[serde(default)]
+    pub sub_signatures: Vec<u64>,
+}
+
+#[derive(Clone, Debug, Serialize, Deserialize)]
+pub struct SubFailure {
+    pub violation: Violation,
+    pub case: Case,
+    pub hash: u64,
+    /// how many follow-up runs of this job showed a violation of this kind
+    pub count: u64,
 }
 
 pub struct Pool {
@@ -411,6 +430,7 @@ fn execute_inner(job: &Job, paths: &Paths) -> RunResult {
             index,
             tier,
             want_case,
+            base,
         } => {
             let p = match props::find(prop) {
                 Some(p) => p,
@@ -423,7 +443,7 @@ fn execute_inner(job: &Job, paths: &Paths) -> RunResult {
                 }
             };
             let mut rng = Rng::new(*seed);
-            let c = p.generate(&mut rng, *seed, parse_tier(tier), *index);
+            let c = p.generate_with_base(*base, &mut rng, *seed, parse_tier(tier), *index);
             (c, *index, *want_case, false)
         }
         Job::Case { case, pin } => ((**case).clone(), 0, true, *pin),
@@ -501,6 +521,50 @@ fn execute_inner(job: &Job, paths: &Paths) -> RunResult {
         }
         for (k, v) in &g.yields_by_class {
             *res.yields.entry(k.to_string()).or_insert(0) += v;
+        }
+    }
+    if res.violations.is_empty() {
+        for sub in p.follow_ups(&case, &rec) {
+            let mut o2 = p.observer(&sub);
+            let r2 = play(&sub.scenario, paths, sub.seed, &sub.knobs, &sub.opts, o2.as_mut());
+            res.sub_runs += 1;
+            res.steps += r2.total_steps();
+            if let Some(e) = &r2.harness_error {
+                res.harness_error = Some(format!("follow-up run: {}", e));
+                res.case = Some(sub);
+                return res;
+            }
+            for g in &r2.groups {
+                for (k, v) in &g.fault_counts {
+                    *res.faults.entry(k.clone()).or_insert(0) += v;
+                }
+            }
+            for (k, v) in p.probes(&sub, &r2) {
+                *res.probes.entry(k).or_insert(0) += v;
+            }
+            if p.nontrivial(&sub, &r2) {
+                res.sub_signatures.push(p.signature(&sub, &r2));
+            }
+            for v in p.check(&sub, &r2, o2.as_ref()) {
+                if let Some(sf) = res
+                    .sub_failures
+                    .iter_mut()
+                    .find(|sf| sf.violation.kind == v.kind)
+                {
+                    sf.count += 1;
+                    continue;
+                }
+                let mut c = sub.clone();
+                for g in &r2.groups {
+                    c.opts.replay.insert(g.step_idx, g.decisions.clone());
+                }
+                res.sub_failures.push(SubFailure {
+                    violation: v,
+                    case: c,
+                    hash: r2.hash(),
+                    count: 1,
+                });
+            }
         }
     }
     if want_case || !res.violations.is_empty() {
